@@ -31,8 +31,9 @@ MANIFEST = {
             'prefix of the real history). "Only declared error types escape" and the liveness of '
             'programs with data flow, guards over variables, failing expressions and engine commands are decided by the '
             '`engine` stream monitors on the real engine, not by a theorem.',
-        'note': 'Expressions (YAQL/Jinja), data flow, policies, with-items, sub-workflows and reverse workflows are '
-                'outside Mistral.Engine. One event = one committed transaction (in-process atomicity via tx_lock); '
+        'note': 'Expressions (YAQL/Jinja), data flow, policies, with-items and sub-workflows are '
+                'outside Mistral.Engine; reverse workflows have their own run model Mistral.Reverse (outcome theorems '
+                'Mistral.Props.C04Rev.quiescent_outcome / started_run_outcome, tied by the C04 reverse streams). One event = one committed transaction (in-process atomicity via tx_lock); '
                 'multi-process sub-transaction interleavings are not exhibited. Seams replaced by recorders: post-commit '
                 'thread, RPC client, executor, scheduler dispatcher, clock, id generator. Liveness theorems: hypotheses '
                 'namesUnique and joinsSatisfiable are what the validator guarantees; liveInGraph ties Spec.live to Spec.graph; '
